@@ -34,8 +34,8 @@ RULE = ("batches of 8 programs x 2 fresh processes (hash seeds 1/2/random, permu
         "non-trivial = program whose plan has >= 3 expression nodes and was compared across processes; distinct by program hash")
 ASSUMPTIONS = ["uuid keys private to one DiskShuffle materialisation are masked", "pandas decides whether two spellings are semantically different"]
 CONFIG = {
-    "quick": {"budget_s": 45, "batches": 48, "batch": 8, "procs": 2, "mutants": 10, "case_timeout_s": 150},
-    "thorough": {"budget_s": 600, "batches": 700, "batch": 10, "procs": 3, "mutants": 30, "case_timeout_s": 300},
+    "quick": {"budget_s": 45, "batches": 48, "batch": 8, "procs": 2, "mutants": 10, "case_timeout_s": 900},
+    "thorough": {"budget_s": 600, "batches": 300, "batch": 10, "procs": 3, "mutants": 30, "case_timeout_s": 300},
 }
 TIER = {"t": "quick"}
 MASK = re.compile(r"(zpartd|shuffle-partition|barrier|split-|shuffle-|repartition-split-\d+)-?[0-9a-f]{32}")
@@ -150,7 +150,7 @@ def run_case(case):
             hs = ["1", "2", "random"][(pi + (case.get("batch") or 0)) % 3]
             env["PYTHONHASHSEED"] = hs
             try:
-                r = subprocess.run([sys.executable, "-W", "ignore", "-m", "vmon.namer", spec], env=env, capture_output=True, text=True, timeout=120)
+                r = subprocess.run([sys.executable, "-W", "ignore", "-m", "vmon.namer", spec], env=env, capture_output=True, text=True, timeout=400)
             except subprocess.TimeoutExpired:
                 bump("namer_timeout")
                 continue
